@@ -2,6 +2,8 @@ import TinysetModel.Proofs.Plain
 import TinysetModel.Proofs.Consts
 import TinysetModel.Proofs.Refine
 import TinysetModel.Proofs.CfgInst
+import TinysetModel.Proofs.TotalCfg32
+import TinysetModel.Proofs.RemoveTotal
 /-! C02 — SetU32 behaves as an exact mathematical set of u32 under every history.
 The theorems below are about the executable model instantiated at `cfg32`. -/
 namespace C02
@@ -150,6 +152,25 @@ example : len (.heap 4 8 2940401507 #[2148532224, 2149580800, 2150629376, 215167
   rw [ab.len]
   exact ((List.perm_ext_iff_of_nodup ab.nodup (specRun_nodup demo List.nodup_nil)).2
     (run_refines_u32 detRng 6 demo (by decide) demo_runs).2.2).length_eq
+
+/-! ### returns normally — what is and is not proved for SetU32 -/
+
+/-- `remove` never fails on a well-formed heap SetU32 -/
+theorem remove_returns_heap_u32 {D : Type} (g : Rng D) (fuel : Nat) {sz cap bits : Nat} {a : Tbl}
+    (wf : WF cfg32 (.heap sz cap bits a)) (e : Nat) (he : e < 2 ^ 32) (d : D) :
+    ∃ r' b, remove cfg32 g fuel (.heap sz cap bits a) e d = .ok ((r', b), d) ∧ RemOK cfg32 (.heap sz cap bits a) e r' b :=
+  remove_heap_total cfg32_ok g fuel wf e he d
+
+/-- For SetU32 the analogue of `C01.insert_returns_and_is_right_u64` with a FIXED small recursion depth is false:
+    because of the "more than 1/16 of the buckets empty" rule, the refill of a regrown table can grow again when the
+    growth draw is small.  Witness (kernel-evaluated): a reachable full 32-bucket table, the constant-0 generator,
+    one more key — depth 2 runs out, depth 3 succeeds.  The recursion is still finite (each level adds at least one
+    bucket); an explicit depth bound for SetU32 is not proved, the correspondence runs the model with fuel 400. -/
+theorem insert_depth2_not_enough_u32 :
+    ¬ (∀ (g : Rng Unit) (r : Rp), WF cfg32 r → ∀ e, e < 2 ^ 32 →
+        capacity r + 32 + 3 ≤ 2 ^ 32 ∧ 3 * len r + 4 + 32 + 3 ≤ 2 ^ 32 →
+        ∀ d, ∃ r' b d', insert cfg32 g 3 r e d = .ok ((r', b), d')) := insert_total_u32_fuel3_false
+theorem insert_depth3_enough_for_witness_u32 : ∃ p, insert cfg32 zeroRng32 4 r32 (2 ^ 20 + 32 * 1024) () = .ok p := r32_fuel4
 
 end C02
 
